@@ -51,7 +51,7 @@ func (c *CheckConfig) defaults() {
 		c.ConcretizeLimit = 64
 	}
 	if c.MaxAllocBytes == 0 {
-		c.MaxAllocBytes = 1 << 22
+		c.MaxAllocBytes = 1 << 24
 	}
 	if c.StepLimit == 0 {
 		c.StepLimit = 20_000_000
